@@ -5,6 +5,7 @@ CONSTANTS
   MaxPool = 6
   Modes <- c_Modes
   NViews = 3
+  EditLeaves = {"s1", "s2", "s3"}
 INIT Init
 NEXT Next
 CONSTRAINT D2
